@@ -13,8 +13,8 @@ from vlib import genome as G, pipeline as P, vcfmodel as vm
 ID = "C16"
 RULE = ("Small generated cases for every subcommand that writes a VCF, BAM or TSV, biased toward ambiguity (conflicting "
         "equal-weight reads, read-free pedigree variants, reads or read clouds spanning several phase sets with equal scores, "
-        "polyploid clusters of identical reads): phase (single samples, trios and quartets with --ped --use-ped-samples, all "
-        "list outputs), genotype (with and without --ped), polyphase (--threads 1/2/4), haplotag (--output-threads 1/4, BX "
+        "polyploid clusters of identical reads): phase (single samples, trios and quartets with --ped, with and without --use-ped-samples and an unrelated "
+        "extra individual in the same files, all list outputs), genotype (with and without --ped), polyphase (--threads 1/2/4, one or two samples, --use-prephasing with one pre-phased and one unphased sample), haplotag (--output-threads 1/4, BX "
         "clouds), haplotagphase, stats, compare, split and unphase. Each case is executed 3-4 times as a real subprocess "
         "with PYTHONHASHSEED in {0, 1, 2, 12345} and different thread settings; all output files (without the ##commandline "
         "/ @PG CL lines) must be identical to those of the first execution. Non-trivial = the harness built a tie into the "
@@ -156,11 +156,22 @@ class PedPhasePart(Base):
         c = gen_ped(draw)
         c["noise"] = draw(st.integers(0, 10 ** 6))
         c["use_ped_samples"] = draw(st.booleans())
+        # an unrelated individual in the same VCF/BAM: a second family whose name sorts before, between or after the pedigree's
+        c["extra"] = draw(st.sampled_from([None, "adam", "dora", "gina", "zoe"]))
+        c["extra_column"] = draw(st.integers(0, 4))
         return c
 
     def prepare(self, case, d):
         name = case["contigs"][0]["name"]
         children = case["samples"][2:]
+        if case.get("extra"):
+            x = case["extra"]
+            case = dict(case)
+            col = min(case["extra_column"], len(case["samples"]))
+            case["samples"] = case["samples"][:col] + [x] + case["samples"][col:]
+            case["haps"] = dict(case["haps"], **{x: case["haps"]["mother"]})
+            case["gts"] = dict(case["gts"], **{x: case["gts"]["mother"]})
+            case["read_specs"] = case["read_specs"] + [dict(sp, sample=x, name=sp["name"] + "_x") for sp in case["read_specs"] if sp["sample"] == "mother"]
         reads = noisy_reads(case, G.render_specs(case, case["read_specs"]), case["noise"])
         ref = G.write_fasta(case["contigs"], os.path.join(d, "ref.fa"))
         vcf = G.write_vcf(case, os.path.join(d, "in.vcf"), gts=case["gts"])
@@ -210,6 +221,8 @@ class PolyphasePart(Base):
         from props.c15_polyphase import gen as gen_poly
         c = gen_poly(draw)
         c["two_samples"] = draw(st.booleans())
+        # --use-prephasing with a pre-phased first sample (the second sample, if any, stays unphased)
+        c["prephase16"] = draw(st.booleans()) and c["ploidy"] <= 5   # the pre-phasing ILP needs minutes at ploidy 6
         return c
 
     def variants_of_run(self, case, k):
@@ -226,10 +239,18 @@ class PolyphasePart(Base):
             case["haps"] = {"s": case["haps"]["s"], "t": case["haps"]["s"]}
             reads = reads + [dict(r, sample="t", name=r["name"] + "_t") for r in reads[::2]]
         ref = G.write_fasta(case["contigs"], os.path.join(d, "ref.fa"))
-        vcf = G.write_vcf(case, os.path.join(d, "in.vcf"))
+        phased = None
+        if case.get("prephase16"):
+            haps = case["haps"]["s"]["chr1"]
+            het = [vi for vi in range(len(case["variants"]["chr1"])) if len({h[vi] for h in haps}) > 1]
+            if len(het) >= 2:
+                phased = {"s": {"chr1": {vi: case["variants"]["chr1"][het[0]]["pos"] + 1 for vi in het[::2]}}}
+        vcf = G.write_vcf(case, os.path.join(d, "in.vcf"), phased=phased)
         bam = G.write_bam(case, reads, os.path.join(d, "reads.bam"))
-        args = ["polyphase", "-o", "{out}/out.vcf", "--reference", ref, "--ploidy", str(case["ploidy"]), "-B", str(case["opts"]["B"]), vcf, bam]
-        return args, ["out.vcf"]
+        args = ["polyphase", "-o", "{out}/out.vcf", "--reference", ref, "--ploidy", str(case["ploidy"]), "-B", str(case["opts"]["B"])]
+        if phased:
+            args.append("--use-prephasing")
+        return args + [vcf, bam], ["out.vcf"]
 
 
 class HaplotagPart(Base):
